@@ -489,3 +489,65 @@ class Walker:
 
 def env_labels(path, env):
     return [(a, list(ar)) for (a, ar, _) in path if a in env]
+
+
+# ------------------------------------------------------------------ fast loader for `tlc -dump dot,actionlabels`
+
+class LazyStates(dict):
+    """state id -> parsed state; the (escaped) dot label is unescaped and parsed on first use -
+    most states of a graph are never looked at by a walk."""
+    def __init__(self, raw):
+        super().__init__()
+        self.raw = raw
+
+    def __missing__(self, k):
+        from harness import tlaval
+        lab = self.raw[k].replace('\\\\', '\x00').replace('\\n', '\n').replace('\\"', '"').replace('\x00', '\\')
+        v = tlaval.parse_state(lab)
+        self[k] = v
+        return v
+
+    def __len__(self):
+        return len(self.raw)
+
+
+def fast_dump(module, cfg, workers=4, timeout=1800, tag=None):
+    """Same result as harness.graph.dump(parse_states=True) but node labels stay raw until used
+    (graph.dump spends most of its time unescaping and parsing every state label)."""
+    import os, re, shutil, tempfile
+    from harness import tlc, graph, tlaval
+    re_node = re.compile(r'^(-?\d+) \[label="(.*?)"(,style = filled)?\];?$')
+    re_node_tt = re.compile(r'^(-?\d+) \[label="(.*)",tooltip=".*?"(,style = filled)?\];?$')
+    re_edge = re.compile(r'^(-?\d+) -> (-?\d+) \[label="(.*)",color=.*\];?$')
+    os.makedirs(tlc.BUILD, exist_ok=True)
+    d = tempfile.mkdtemp(prefix='dot-%s-' % (tag or module), dir=tlc.BUILD)
+    base = os.path.join(d, 'g')
+    try:
+        r = tlc.run(module, cfg, workers=workers, heavy=True, timeout=timeout, extra=['-dump', 'dot,actionlabels', base], tag=tag)
+        g = graph.Graph()
+        g.tlc = r
+        raw = {}
+        with open(base + '.dot') as f:
+            for line in f:
+                line = line.rstrip('\n')
+                if ' -> ' in line[:48]:
+                    m = re_edge.match(line)
+                    if m:
+                        a, b, lab = m.group(1), m.group(2), m.group(3).replace('\\"', '"').replace('\\\\', '\\')
+                        i = lab.find('(')
+                        if i < 0:
+                            act, args = lab, []
+                        else:
+                            act, args = lab[:i], tlaval.parse_args(lab[i + 1:lab.rindex(')')])
+                        g.edges[a].append((act, args, b))
+                        g.n_edges += 1
+                        continue
+                m = re_node_tt.match(line) or re_node.match(line)
+                if m:
+                    raw[m.group(1)] = m.group(2)
+                    if m.group(3):
+                        g.init.append(m.group(1))
+        g.state = LazyStates(raw)
+        return g
+    finally:
+        shutil.rmtree(d, ignore_errors=True)
